@@ -273,6 +273,14 @@ class Context:
             if proto is NULL or proto is None:
                 obj._prototype = None
             elif isinstance(proto, JSObject):
+                # A prototype chain must stay acyclic: every lookup walks it to the end
+                current = proto
+                while current is not None:
+                    if current is obj:
+                        from .errors import JSTypeError
+
+                        raise JSTypeError("Cyclic __proto__ value")
+                    current = current._prototype
                 obj._prototype = proto
             return obj
 
